@@ -2,27 +2,27 @@
 // re-run: ./check C05 --replay /verif/replays/C05-c05_k1_default.rs
 /// Test generated for harness `layout::verif_kani::c05_k1_default` 
 ///
-/// Check for `assertion`: "assertion failed: expect == Some(a)"
+/// Check for `assertion`: ""no early trigger => tap / timeout / pending by the timing rule""
 
 #[test]
-fn kani_concrete_playback_c05_k1_default_8767552726701404712() {
+fn kani_concrete_playback_c05_k1_default_17102371508565025462() {
     let concrete_vals: std::vec::Vec<std::vec::Vec<u8>> = vec![
-        // 5
-        vec![5, 0],
-        // 8
-        vec![8, 0],
+        // 1
+        vec![1, 0],
+        // 32773
+        vec![5, 128],
         // 65535
         vec![255, 255],
-        // 33
-        vec![33],
+        // 1
+        vec![1],
         // 1ul
         vec![1, 0, 0, 0, 0, 0, 0, 0],
         // 0
         vec![0, 0],
         // 0
         vec![0],
-        // 4
-        vec![4, 0],
+        // 3
+        vec![3, 0],
     ];
     kani::concrete_playback_run(concrete_vals, c05_k1_default);
 }
